@@ -10,12 +10,12 @@ if [ -d h/clib ] && (cd h && "$GO" build -tags clib ./clib/ >/dev/null 2>&1); th
 python3 - <<'PY'
 import json, subprocess, os, sys
 sys.path.insert(0, ".")
-reg = json.load(open("checks.json"))
 seen = set()
 import importlib.machinery, importlib.util
 loader = importlib.machinery.SourceFileLoader("chk", "./check")
 spec = importlib.util.spec_from_loader("chk", loader)
 chk = importlib.util.module_from_spec(spec); loader.exec_module(chk)
+reg = chk.REG
 import tempfile, shutil
 for pid, s in reg.items():
     key = (s["pkg"], bool(s.get("race")), s.get("tags", "verif"), bool(s.get("clib")))
